@@ -612,6 +612,14 @@ def who_writes(ctx, attr, allowed, cls_family=None):
                 hit = True
             if hit:
                 owner = ctx.prog.enclosing_function(fi.module, n) or fi
+                if cls_family is not None and isinstance(n, ast.Attribute) and isinstance(n.value, ast.Name) and n.value.id == 'self':
+                    # `self.attr = ...` inside a method of an unrelated class (a helper class a refactoring introduced) is a
+                    # write to THAT class's objects
+                    o = owner
+                    while o is not None and o.cls is None:
+                        o = o.parent
+                    if o is not None and o.cls is not None and o.cls.qual not in cls_family:
+                        continue
                 if owner is fi:
                     writers.setdefault(fi.short, n)
     return fold_new_helpers(ctx, writers)
